@@ -1,20 +1,32 @@
 """C07: KroneckerFactoredLattice after its constraints gives monotone, bounded outputs.
-Tie: the REAL tfl.layers.KroneckerFactoredLattice with assigned kernel / scale, then
-`v.assign(v.constraint(v))` for kernel and scale in every order (and repeated) and
-finalize_constraints(), vs Tfl.Kfl.kernelConstraint / scaleConstraint / finalizeConstraints / eval.
-Oracle: pairwise monotonicity (ONE coordinate perturbed) and bounds of the real outputs after the
-real constraints."""
+Tie: the REAL tfl.layers.KroneckerFactoredLattice under histories of raw updates (`v.assign(values)`) and
+constraint calls (`v.assign(v.constraint(v))`, finalize_constraints()) of kernel and scale in ANY interleaving —
+no forced constraint tail —, vs Tfl.Kfl.kernelConstraint / scaleConstraint / finalizeConstraints / eval, and the
+run bookkeeping Tfl.Kfl.runTracked (driver op kfl.track) vs the same bookkeeping read off the real snapshots;
+real Keras optimizer steps (tf_keras SGD and legacy SGD, apply_gradients and train_on_batch) vs the model's
+kerasStepBatch / kerasStepPerVar.
+Oracle: pairwise monotonicity (ONE coordinate perturbed) and bounds of the real outputs at the end of every run
+in which the clause's premise holds (see RULE)."""
+import itertools
 import numpy as np
 from fractions import Fraction
 from common import *
 
 RULE = ("configs from one PRNG: lattice_sizes 2-4, dims 1-4, units 1-2, num_terms 1-3, monotonicities None / "
         "all-zero / every subset (ints or strings), bounds {none,min,max,both}, clip_inputs on/off; kernels "
-        "dyadic/int(ties)/unit/wide/tiny/big with planted zeros, scale entries of every sign incl. exact zeros; "
-        "history = assignments, then 0-4 random ops (re-assignments with new signs, constraints), then a tail "
-        "containing both constraints in either order / repeated / finalize_constraints(); evaluation points: "
-        "sweeps of one coordinate over vertices, midpoints, ties and out-of-range values from random base "
-        "points. Non-trivial = a constraint call moved a variable; distinct = config class x history tail x "
+        "dyadic/int(ties)/unit/wide/tiny/big with planted zeros, scale entries of every sign incl. exact zeros. "
+        "Histories (three modes): 'tail' = assignments, 0-4 random ops, then a pure constraint tail; 'perm' = every "
+        "one of the 24 orders of {raw kernel update, kernel constraint, raw scale update, scale constraint} after "
+        "an optional warm-up, the scale update related to the previous one as flip / flip-some / same-signs / "
+        "to-zero / from-zero / random; 'free' = 2-8 random ops (raw updates with those sign relations, constraints, "
+        "finalize_constraints()) with NO forced tail. Bookkeeping on the real snapshots: ref = scale read by the last "
+        "kernel constraint not followed by a raw kernel update, s_fresh = scale constraint after the last raw scale "
+        "update. Bounds are checked when ref exists and s_fresh; monotonicity of unit u when ref exists and (every "
+        "term of u has ref_t = 0 or now_t = 0 or equal signs [run_class covered] or s_fresh [run_class "
+        "kernel_constrained_before_scale_sign_flip = F-C07-c]). Training: real layers under 3 SGD / legacy-SGD steps "
+        "with learning rates 0.5-8 and hostile (decreasing, out-of-bounds) targets; both clauses after every step. "
+        "Evaluation points: sweeps of one coordinate over vertices, midpoints, ties and out-of-range values from "
+        "random base points. Non-trivial = a constraint call moved a variable; distinct = config class x history x "
         "kernel kind x moved x hash.")
 ASSUMPTIONS = [
     "KFL hard-casts to float32: model vs code compared with rtol 1e-5 (weights) / 3e-5 (outputs) of the case magnitude",
@@ -24,6 +36,12 @@ ASSUMPTIONS = [
     "theorems are per unit (units are independent columns of the reshape, C09) and per example",
     "finalize_constraints() is exercised with |kernel| <= 4 only: it writes k + (proj(k) - k) in float32, which "
     "absorbs the projection when |k| >> |proj(k)| (pure rounding, see report)",
+    "monotonicity is guaranteed only for runs whose last kernel constraint is not followed by a scale update to the "
+    "opposite non-zero sign (theorem layer_after_any_run, tight by sign_condition_tight); the other runs with both "
+    "constraints applied are finding F-C07-c (generated, pinned by run_class)",
+    "a Keras optimizer step is [raw scale update, raw kernel update, scale constraint, kernel constraint] (current "
+    "optimizers) or per variable in trainable_variables order scale < kernel (legacy): checked on the real layer and "
+    "the real optimizers, SGD raw update recomputed as v - lr*grad in float32",
 ]
 
 BMODES = ["none", "min", "max", "both"]
@@ -64,6 +82,66 @@ def gen_scale(rng, U, T):
   return out
 
 
+MAGS = [Fraction(1, 4), Fraction(1, 2), Fraction(1), Fraction(3, 2), Fraction(5)]
+RELS = ["flip", "flip", "flipsome", "same", "zero", "fromzero", "rand"]
+OPS4 = ["assignK", "consK", "assignS", "consS"]
+PERMS = list(itertools.permutations(OPS4))
+WARMUPS = [[], [], ["consK", "consS"], ["consS", "consK"], ["finalize"]]
+
+
+def rel_scale(rng, prev, rel, U, T):
+  """a raw scale update related to the previous raw update `prev` (U x T fractions)"""
+  if rel == "rand" or prev is None:
+    return gen_scale(rng, U, T)
+  out = []
+  for u in range(U):
+    row = []
+    for t in range(T):
+      mag = rng.choice(MAGS + [Fraction(rng.randint(1, 64), 16)])
+      p = prev[u][t]
+      sg = (p > 0) - (p < 0)
+      if rel == "flip":
+        sg = -sg if sg else rng.choice([-1, 1])
+      elif rel == "flipsome":
+        sg = (-sg if sg else rng.choice([-1, 1])) if rng.random() < 0.5 else sg
+      elif rel == "zero":
+        sg = 0 if rng.random() < 0.6 else sg
+      elif rel == "fromzero":
+        sg = rng.choice([-1, 1]) if sg == 0 else sg
+      row.append(mag * sg)
+    out.append(row)
+  return out
+
+
+def gen_history(rng):
+  """op NAMES of one history: (mode, label, names, rels) — values are filled in by gen_case"""
+  mode = rng.choice(["tail", "perm", "perm", "free", "free", "kfirst", "kfirst", "sfirst"])
+  names = ["assignK", "assignS"]
+  if mode == "kfirst":      # optimizer-like steps in the order kernel, scale (NOT the layer's variable order)
+    names += rng.choice(WARMUPS)
+    for _ in range(rng.randint(1, 3)):
+      names += ["assignK", "consK", "assignS", "consS"]
+    return mode, "kernel_first_steps", names
+  if mode == "sfirst":      # the layer's variable order, per variable (legacy) or batched (current optimizers)
+    per_var = rng.random() < 0.5
+    for _ in range(rng.randint(1, 3)):
+      names += ["assignS", "consS", "assignK", "consK"] if per_var else ["assignS", "assignK", "consS", "consK"]
+    return mode, "scale_first_steps:" + ("per_var" if per_var else "batch"), names
+  if mode == "tail":
+    for _ in range(rng.randint(0, 4)):
+      names.append(rng.choice(["assignK", "assignS", "assignS", "consK", "consS"]))
+    tail = rng.choice(TAILS)
+    return mode, "+".join(tail), names + list(tail)
+  if mode == "perm":
+    perm = rng.choice(PERMS)
+    names += rng.choice(WARMUPS) + list(perm)
+    return mode, "perm:" + ".".join(o[0] + o[-1] for o in perm), names
+  for _ in range(rng.randint(2, 8)):
+    names.append(rng.choice(["assignK", "assignK", "assignS", "assignS", "assignS", "consK", "consK", "consK",
+                             "consS", "consS", "consS", "finalize"]))
+  return mode, "free", names
+
+
 def gen_case(rng):
   L = rng.choice([2, 2, 3, 3, 4])
   dims = rng.randint(1, 4)
@@ -85,19 +163,24 @@ def gen_case(rng):
   lo = a if bmode in ("min", "both") else None
   hi = a + Fraction(rng.randint(1, 16), 4) if bmode in ("max", "both") else None
   clip = rng.random() < 0.5
-  tail = rng.choice(TAILS)
-  has_fin = "finalize" in tail
+  mode, label, names = gen_history(rng)
+  has_fin = "finalize" in names
   kind = rng.choice(["small", "int", "unit", "tiny"] if has_fin else KINDS)
-  ops = [["assignK", gen_kernel(rng, kind, L, U * dims, T)], ["assignS", gen_scale(rng, U, T)]]
-  for _ in range(rng.randint(0, 4)):
-    o = rng.choice(["assignK", "assignS", "assignS", "consK", "consS"])
+  ops, prev, first_s = [], None, True
+  rel0 = rng.choice(RELS)
+  for o in names:
     if o == "assignK":
       ops.append([o, gen_kernel(rng, kind, L, U * dims, T)])
     elif o == "assignS":
-      ops.append([o, gen_scale(rng, U, T)])
+      rel = "rand" if first_s else (rel0 if mode == "perm" else rng.choice(RELS))
+      sc = rel_scale(rng, prev, rel, U, T)
+      if first_s and rel0 == "fromzero":
+        sc[rng.randrange(U)][rng.randrange(T)] = Fraction(0)
+      first_s = False
+      prev = sc
+      ops.append([o, sc])
     else:
       ops.append([o])
-  ops += [[t] for t in tail]
   # evaluation points: sweeps of one coordinate from random base points
   vals = sorted({Fraction(v, 4) for v in range(-6, 4 * L + 4)})
   sweep = sorted(set(rng.sample(vals, min(len(vals), 7)) + [Fraction(0), Fraction(L - 1), Fraction(rng.randint(0, 8 * (L - 1)), 8)]))
@@ -107,7 +190,8 @@ def gen_case(rng):
     bases.append([[Fraction(rng.randint(0, 8 * (L - 1)), 8) if inr or rng.random() < 0.5
                    else Fraction(rng.randint(-12, 8 * L + 4), 8) for _ in range(dims)] for _ in range(U)])
   cfg = dict(L=L, dims=dims, units=U, T=T, monos=monos, lo=lo, hi=hi, clip=clip)
-  return dict(cfg=cfg, kind=kind, ops=ops, sweep=sweep, bases=bases, tail="+".join(tail))
+  return dict(cfg=cfg, kind=kind, ops=ops, sweep=sweep, bases=bases, tail=label, mode=mode,
+              rel=rel0 if mode == "perm" else None)
 
 
 def canon_monos(monos, dims):
@@ -160,15 +244,33 @@ def run_case(ctx, case):
   def snap():
     return layer.kernel.numpy().copy(), layer.scale.numpy().copy()
 
+  # bookkeeping on the REAL snapshots (mirrors Tfl.Kfl.Track): ref = scale read by the last kernel constraint
+  # not followed by a raw kernel update; s_fresh = scale constraint after the last raw scale update
+  s_init = layer.scale.numpy().copy()
+  ref, s_fresh = None, False
+  enc = [[] for _ in range(U)]      # per unit: ops of the run for the driver's kfl.track
   for op in case["ops"]:
     name = op[0]
     if name == "assignK":
       layer.kernel.assign(np.array([[[[float(Fraction(v)) for v in row] for row in plane] for plane in op[1]]], dtype=np.float32))
+      ref = None
+      for u in range(U):
+        enc[u].append("0")
       continue
     if name == "assignS":
       layer.scale.assign(np.array([[float(Fraction(v)) for v in row] for row in op[1]], dtype=np.float32))
+      s_fresh = False
+      sa = layer.scale.numpy()
+      for u in range(U):
+        enc[u].append("1," + frl(sa[u]))
       continue
     k0, s0 = snap()
+    if name in ("consK", "finalize"):
+      ref = s0.copy()
+    if name in ("consS", "finalize"):
+      s_fresh = True
+    for u in range(U):
+      enc[u] += {"consK": ["2"], "consS": ["3"], "finalize": ["2", "3"]}[name]
     rs = None
     if name in ("consK", "finalize"):
       rs = root_factors(tf, kfl_lib, layer.kernel, layer.scale, cfg, monos_c)
@@ -215,9 +317,38 @@ def run_case(ctx, case):
     lines.append("kfl.eval %d %d %d %s %s %s %s" % (
         L, int(cfg["clip"]), dims, frl2(kflat(kf, u, dims, T, L)), frl(sf[u]), fr(bias[u]),
         frl2([[Fraction(v) for v in row[u]] for row in X])))
+  tr_first = len(lines)
+  for u in range(U):
+    lines.append("kfl.track %s %s %s %s" % (opt(lo), opt(hi), frl(s_init[u]), ";".join(enc[u]) if enc[u] else "_"))
   item = dict(case=case, steps=steps, kf=kf, sf=sf, bias=bias, pts=pts, X=Xf, out=out, ev_first=ev_first,
-              moved=moved, nlines=len(lines), monos_b=monos_b)
+              moved=moved, nlines=len(lines), monos_b=monos_b, ref=ref, s_fresh=s_fresh, tr_first=tr_first)
   return lines, item
+
+
+def sign_ok1(r, f):
+  """Tfl.Kfl.signOk1 on floats: the term is still oriented correctly"""
+  return r == 0 or f == 0 or (r > 0) == (f > 0)
+
+
+FLIP_CLASS = "kernel_constrained_before_scale_sign_flip"
+
+
+def classify(item):
+  """per unit: (monotonicity premise holds, run_class or None); and whether the bounds premise holds"""
+  ref, s_fresh, sf = item["ref"], item["s_fresh"], item["sf"]
+  U = sf.shape[0]
+  if ref is None:
+    return [(False, "unconstrained")] * U, False
+  out = []
+  for u in range(U):
+    ok = all(sign_ok1(float(r), float(f)) for r, f in zip(ref[u], sf[u]))
+    if ok:
+      out.append((True, "covered" if s_fresh else "covered_scale_unconstrained"))
+    elif s_fresh:
+      out.append((True, FLIP_CLASS))
+    else:
+      out.append((False, "unconstrained"))
+  return out, bool(s_fresh)
 
 
 def magnitude(cfg, kf, sf, bias, Xf):
@@ -249,10 +380,31 @@ def check_case(ctx, item, replies):
   ctx.count("tail:" + case["tail"])
   ctx.count("kind:" + case["kind"])
   ctx.count("dims:%d units:%d terms:%d" % (dims, U, T))
+  ctx.count("mode:%s" % case.get("mode", "tail"))
+  if case.get("rel"):
+    ctx.count("perm_rel:" + case["rel"])
   key = dict(layer="kfl", bounds=bmode, monos=mcls, clip=bool(cfg["clip"]), tail=case["tail"])
   ctx.case(sig=(cls, case["tail"], case["kind"], item["moved"], dims, U, T, hash(item["kf"].tobytes()) % 997),
            nontrivial=item["moved"], sample=dict(cfg=cfg, tail=case["tail"], kind=case["kind"]))
   small = dict(cfg=cfg, tail=case["tail"], kind=case["kind"])
+  # ---- run bookkeeping: the model's (driver, kfl.track) vs the one read off the real snapshots
+  unit_cls, bound_prem = classify(item)
+  for u in range(U):
+    toks = replies[item["tr_first"] + u].split(" ")
+    m_ref = None if toks[0] == "none" else parse_rats(toks[0])
+    m_fresh, m_mono, m_bound = toks[1] == "1", toks[2] == "1", toks[3] == "1"
+    r_ref = None if item["ref"] is None else [Fraction(float(v)) for v in item["ref"][u]]
+    r_mono = unit_cls[u][1] in ("covered", "covered_scale_unconstrained")
+    r_sig = lambda l: None if l is None else [(v > 0) - (v < 0) for v in l]
+    if (r_sig(m_ref), m_fresh, m_mono, m_bound) == (r_sig(r_ref), bool(item["s_fresh"]), r_mono, bound_prem):
+      ctx.agree("kfl.track")
+    else:
+      ctx.disagree("kfl.track", dict(small, ops=[o[0] for o in case["ops"]]),
+                   [r_ref, bool(item["s_fresh"]), r_mono, bound_prem], replies[item["tr_first"] + u],
+                   "run bookkeeping (ref signs, sFresh, monoCovered, boundCovered) differs")
+    ctx.compare("kfl.track.scale", small, item["sf"][u], parse_rats(toks[4]), max_abs(item["sf"].ravel()), rtol=1e-6)
+    ctx.count("run_class:" + unit_cls[u][1])
+  ctx.count("bounds_premise:%s" % bound_prem)
   # ---- bias
   ctx.compare("kfl.bias", small, [float(b) for b in item["bias"]], [Fraction(replies[0])] * U, 1.0, rtol=1e-6)
   # ---- constraint steps
@@ -296,44 +448,256 @@ def check_case(ctx, item, replies):
   inr = np.all((Xf >= 0) & (Xf <= L - 1), axis=-1)          # (P, U) in-range points
   ok_pt = np.ones_like(inr) if cfg["clip"] else inr
   tolp = 3e-5 * np.maximum(1.0, M)
-  if lo is not None:
-    bad = ok_pt & (out < float(lo) - tolp)
-    if np.any(bad):
-      p, u = np.argwhere(bad)[0]
-      ctx.fail("output_min", key, case, dict(x=Xf[p, u], out=float(out[p, u]), unit=int(u)),
-               "output %r < output_min %r" % (float(out[p, u]), float(lo)))
-  if hi is not None:
-    bad = ok_pt & (out > float(hi) + tolp)
-    if np.any(bad):
-      p, u = np.argwhere(bad)[0]
-      ctx.fail("output_max", key, case, dict(x=Xf[p, u], out=float(out[p, u]), unit=int(u)),
-               "output %r > output_max %r" % (float(out[p, u]), float(hi)))
+  evaluate_clauses(ctx, key, case, cfg, monos_b, out, pts, Xf, ok_pt, tolp, unit_cls, bound_prem)
+
+
+def evaluate_clauses(ctx, key, case, cfg, monos_b, out, pts, Xf, ok_pt, tolp, unit_cls, bound_prem):
+  """the property's clauses on the REAL outputs. Bounds: when each constraint ran after the last raw update of
+  its variable. Monotonicity of unit u: when unit_cls[u][0]; the failure key carries run_class (F-C07-c is pinned
+  on run_class = FLIP_CLASS only: any other monotonicity failure is reported)."""
+  lo, hi, U = cfg["lo"], cfg["hi"], cfg["units"]
+  if bound_prem:
+    bkey = dict(key, run_class=FLIP_CLASS if any(c == FLIP_CLASS for _, c in unit_cls) else "covered")
+    if lo is not None:
+      bad = ok_pt & (out < float(lo) - tolp)
+      if np.any(bad):
+        p, u = np.argwhere(bad)[0]
+        ctx.fail("output_min", bkey, case, dict(x=Xf[p, u], out=float(out[p, u]), unit=int(u)),
+                 "output %r < output_min %r" % (float(out[p, u]), float(lo)))
+    if hi is not None:
+      bad = ok_pt & (out > float(hi) + tolp)
+      if np.any(bad):
+        p, u = np.argwhere(bad)[0]
+        ctx.fail("output_max", bkey, case, dict(x=Xf[p, u], out=float(out[p, u]), unit=int(u)),
+                 "output %r > output_max %r" % (float(out[p, u]), float(hi)))
+    ctx.count("oracle_points", int(np.sum(ok_pt)))
   ns = len(case["sweep"])
   npairs = 0
+  failed_units = set()
   for start in range(0, len(pts), ns):
     bi, d, _ = pts[start]
     if not monos_b[d]:
       continue
     for u in range(U):
+      if not unit_cls[u][0] or u in failed_units:
+        continue
       idx = [start + j for j in range(ns) if ok_pt[start + j, u]]
       for a, b in zip(idx, idx[1:]):
         npairs += 1
+        if unit_cls[u][1] == FLIP_CLASS:
+          ctx.count("oracle_pairs_flip_class")
         if out[a, u] > out[b, u] + max(tolp[a, u], tolp[b, u]):
-          ctx.fail("monotonicity", key, case,
+          failed_units.add(u)
+          ctx.count("monotonicity_failures:" + unit_cls[u][1])
+          if unit_cls[u][1] == FLIP_CLASS and ctx.dist["monotonicity_failures:" + FLIP_CLASS] > 60:
+            break     # F-C07-c is recorded often enough; keep room in the failure list for anything else
+          ctx.fail("monotonicity", dict(key, run_class=unit_cls[u][1]), case,
                    dict(dim=d, unit=u, x_lo=Xf[a, u], x_hi=Xf[b, u], out_lo=float(out[a, u]), out_hi=float(out[b, u])),
                    "output decreases by %g along increasing dim %d" % (float(out[a, u] - out[b, u]), d))
           break
   ctx.count("oracle_pairs", npairs)
-  ctx.count("oracle_points", int(np.sum(ok_pt)))
+
+
+# ---------------------------------------------------------------- real Keras training (theorem keras_training_…)
+def gen_train(rng):
+  L = rng.choice([2, 2, 3])
+  dims = rng.randint(1, 3)
+  U = rng.randint(1, 2)
+  T = rng.randint(1, 3)
+  monos = [1] * dims if rng.random() < 0.4 else [rng.randint(0, 1) for _ in range(dims)]
+  if not any(monos) and rng.random() < 0.7:
+    monos[rng.randrange(dims)] = 1
+  bmode = rng.choice(BMODES)
+  a = Fraction(rng.randint(-4, 4), 4)
+  lo = a if bmode in ("min", "both") else None
+  hi = a + Fraction(rng.randint(1, 8), 4) if bmode in ("max", "both") else None
+  cfg = dict(L=L, dims=dims, units=U, T=T, monos=monos, lo=lo, hi=hi, clip=rng.random() < 0.5)
+  N = rng.randint(3, 6)
+  xs = [[[Fraction(rng.randint(0, 8 * (L - 1)), 8) for _ in range(dims)] for _ in range(U)] for _ in range(N)]
+  slope = Fraction(rng.choice([2, 5, 20]))
+  vals = sorted({Fraction(v, 4) for v in range(-2, 4 * L)})
+  sweep = sorted(set(rng.sample(vals, min(len(vals), 6)) + [Fraction(0), Fraction(L - 1)]))
+  bases = [[[Fraction(rng.randint(0, 8 * (L - 1)), 8) for _ in range(dims)] for _ in range(U)] for _ in range(2)]
+  return dict(cfg=cfg, train=True, opt=rng.choice(["sgd", "legacy_sgd"]), lr=rng.choice([0.5, 2.0, 4.0]),
+              steps=3, xs=xs, slope=slope, fit=False, sweep=sweep, bases=bases,
+              init=rng.choice(["default", "assigned"]), seed=rng.randrange(1 << 30), tail="keras_training", kind="train")
+
+
+def sweep_points(case, U, dims):
+  pts, X = [], []
+  for bi, base in enumerate(case["bases"]):
+    for d in range(dims):
+      for si, v in enumerate(case["sweep"]):
+        row = [list(base[u]) for u in range(U)]
+        for u in range(U):
+          row[u][d] = v
+        pts.append((bi, d, si))
+        X.append(row)
+  return pts, np.array([[[float(Fraction(v)) for v in r] for r in row] for row in X], dtype=np.float32), X
+
+
+def run_train_case(ctx, case):
+  """A real layer, real Keras optimizer steps on hostile targets; after EVERY step: snapshot, model lines for the
+  step read as [raw scale update, raw kernel update, scale constraint, kernel constraint], real outputs."""
+  import tensorflow as tf
+  import tensorflow_lattice as tfl
+  from tensorflow_lattice.python import kronecker_factored_lattice_lib as kfl_lib
+  from tensorflow_lattice.python import kronecker_factored_lattice_layer as kfl_layer
+  from tensorflow_lattice.python import utils
+  keras = kfl_layer.keras
+  cfg = case["cfg"]
+  L, dims, U, T = cfg["L"], cfg["dims"], cfg["units"], cfg["T"]
+  lo, hi = cfg["lo"], cfg["hi"]
+  tf.random.set_seed(case["seed"])
+  layer = tfl.layers.KroneckerFactoredLattice(
+      lattice_sizes=L, units=U, num_terms=T, monotonicities=cfg["monos"],
+      output_min=None if lo is None else float(lo), output_max=None if hi is None else float(hi),
+      clip_inputs=cfg["clip"])
+  inp_shape = [dims] if U == 1 else [U, dims]
+  model = keras.Sequential([keras.layers.Input(shape=inp_shape), layer])
+  monos_b = canon_monos(cfg["monos"], dims)
+  monos_c = utils.canonicalize_monotonicities(cfg["monos"], allow_decreasing=False)
+  mtok = il([int(b) for b in monos_b])
+  if case["init"] == "assigned":
+    r = np.random.RandomState(case["seed"] % (1 << 31))
+    layer.kernel.assign(r.randint(-16, 17, size=layer.kernel.shape).astype(np.float32) / 8)
+    layer.scale.assign(r.randint(-16, 17, size=layer.scale.shape).astype(np.float32) / 8)
+    layer.finalize_constraints()
+  names = [v.name.split("/")[-1].split(":")[0] for v in model.trainable_variables]
+  order_ok = (len(names) >= 2 and "scale" in names[0] and "kernel" in names[-1] and
+              model.trainable_variables[0] is layer.scale and model.trainable_variables[-1] is layer.kernel)
+  opt = (keras.optimizers.SGD if case["opt"] == "sgd" else keras.optimizers.legacy.SGD)(learning_rate=case["lr"])
+  if case["fit"]:
+    model.compile(optimizer=opt, loss="mse", run_eagerly=True)
+  x = np.array([[[float(v) for v in r] for r in row] for row in case["xs"]], dtype=np.float32)
+  xin = x[:, 0, :] if U == 1 else x
+  # hostile targets: strongly DEcreasing in the monotone inputs, far outside the bounds
+  y = -float(case["slope"]) * np.sum(x * np.array(monos_b, dtype=np.float32)[None, None, :], axis=-1)
+  y = (y - 50.0 * ((np.arange(U) % 2) * 2 - 1)[None, :]).astype(np.float32).reshape([len(x), U])
+  pts, Xf, X = sweep_points(case, U, dims)
+  lines, steps = ["kfl.bias %s %s" % (opt_(lo), opt_(hi))], []
+  lr32 = np.float32(case["lr"])
+  for step in range(case["steps"]):
+    k0, s0 = layer.kernel.numpy().copy(), layer.scale.numpy().copy()
+    with tf.GradientTape() as tape:
+      loss = tf.reduce_mean(tf.square(tf.reshape(model(xin, training=True), [len(x), U]) - y))
+    tv = model.trainable_variables
+    grads = tape.gradient(loss, tv)
+    g = {id(v): gr.numpy() for v, gr in zip(tv, grads)}
+    if case["fit"]:
+      model.train_on_batch(xin, y if U > 1 else y.reshape([-1, 1]))
+    else:
+      opt.apply_gradients(zip(grads, tv))
+    k1, s1 = layer.kernel.numpy().copy(), layer.scale.numpy().copy()
+    # the raw SGD updates, recomputed in float32
+    ku = (k0 + (-g[id(layer.kernel)] * lr32)).astype(np.float32)
+    su = (s0 + (-g[id(layer.scale)] * lr32)).astype(np.float32)
+    raw_finite = bool(np.all(np.isfinite(ku)) and np.all(np.isfinite(su)) and np.all(np.isfinite(g[id(layer.kernel)]))
+                      and np.all(np.isfinite(g[id(layer.scale)])) and max_abs(ku.ravel()) < 1e12 and max_abs(su.ravel()) < 1e12)
+    finite = bool(raw_finite and np.all(np.isfinite(k1)) and np.all(np.isfinite(s1)))
+    first = len(lines)
+    rs = None
+    if finite:
+      rs = root_factors(tf, kfl_lib, tf.constant(ku), tf.constant(s1), cfg, monos_c)
+      for u in range(U):
+        lines.append("kfl.scale %s %s %s" % (opt_(lo), opt_(hi), frl(su[u])))
+        lines.append("kfl.cons %s %s %s %d %s %s %s" % (mtok, opt_(lo), opt_(hi), dims, frl(s1[u]), frl(rs[u]),
+                                                        frl2(kflat(ku, u, dims, T, L))))
+    bias = layer.bias.numpy().copy()
+    out = layer(tf.constant(Xf[:, 0, :] if U == 1 else Xf)).numpy().reshape([len(X), U])
+    ev_first = len(lines)
+    if finite:
+      for u in range(U):
+        lines.append("kfl.eval %d %d %d %s %s %s %s" % (
+            L, int(cfg["clip"]), dims, frl2(kflat(k1, u, dims, T, L)), frl(s1[u]), fr(bias[u]),
+            frl2([[Fraction(v) for v in row[u]] for row in X])))
+    steps.append(dict(k0=k0, s0=s0, ku=ku, su=su, k1=k1, s1=s1, first=first, ev_first=ev_first, bias=bias, out=out,
+                      finite=finite, raw_finite=raw_finite, flipped=bool(np.any(np.sign(su) * np.sign(s0) < 0)),
+                      moved=bool(np.any(k1 != ku) or np.any(s1 != su))))
+    if not finite:
+      break
+  item = dict(case=case, train=True, steps=steps, pts=pts, X=Xf, monos_b=monos_b, nlines=len(lines),
+              order_ok=order_ok, names=names)
+  return lines, item
+
+
+def opt_(x):
+  return "none" if x is None else fr(x)
+
+
+def check_train_case(ctx, item, replies):
+  case = item["case"]
+  cfg = case["cfg"]
+  L, dims, U, T = cfg["L"], cfg["dims"], cfg["units"], cfg["T"]
+  lo, hi = cfg["lo"], cfg["hi"]
+  monos_b = item["monos_b"]
+  bmode = "both" if lo is not None and hi is not None else "min" if lo is not None else "max" if hi is not None else "none"
+  mcls = "zeros" if not any(monos_b) else "all" if all(monos_b) else "some"
+  mode = "fit" if case["fit"] else "apply_gradients"
+  key = dict(layer="kfl", bounds=bmode, monos=mcls, clip=bool(cfg["clip"]), tail="keras_training",
+             optimizer=case["opt"], run_class="keras_training")
+  small = dict(cfg=cfg, opt=case["opt"], lr=case["lr"], mode=mode, seed=case["seed"])
+  ctx.count("train:%s:%s:b%s" % (case["opt"], mode, bmode))
+  any_moved = any(st["moved"] for st in item["steps"])
+  ctx.case(sig=("train", case["opt"], mode, bmode, mcls, L, dims, U, T, case["lr"], case["seed"] % 997),
+           nontrivial=any_moved, sample=small)
+  # the layer creates scale before kernel: the order the positive theorem is about
+  if item["order_ok"]:
+    ctx.agree("kfl.trainable_variables_order")
+  else:
+    ctx.disagree("kfl.trainable_variables_order", small, item["names"], "scale < kernel",
+                 "layer.trainable_variables is not [scale, (bias,) kernel]")
+  for si, st in enumerate(item["steps"]):
+    if not st["raw_finite"]:
+      # SGD itself diverged (raw update non-finite or beyond 1e12): outside "every finite kernel and scale"
+      ctx.count("train_diverged_raw_update")
+      return
+    if not st["finite"]:
+      ctx.fail("finite", key, case, dict(step=si), "finite raw update, non-finite weights after the constraints")
+      return
+    ctx.count("train_steps")
+    if st["flipped"]:
+      ctx.count("train_steps_scale_sign_flipped")
+    ksc = max(1.0, max_abs(st["ku"].ravel()))
+    for u in range(U):
+      ms = parse_rats(replies[st["first"] + 2 * u])
+      ctx.compare("kfl.keras_step.scale", dict(small, step=si, s0=st["s0"], su=st["su"]), st["s1"][u], ms,
+                  max(1.0, max_abs(st["su"].ravel())), rtol=1e-5)
+      toks = replies[st["first"] + 2 * u + 1].split(" ")
+      mk = [v for row in parse_rats2(toks[0]) for v in row]
+      rk = [v for row in kflat(st["k1"], u, dims, T, L) for v in row]
+      ctx.compare("kfl.keras_step.kernel", dict(small, step=si, k0=st["k0"], ku=st["ku"], s1=st["s1"]), rk, mk, ksc, rtol=2e-5)
+    out, Xf = st["out"], item["X"]
+    M, _ = magnitude(cfg, st["k1"], st["s1"], st["bias"], Xf)
+    if not np.all(np.isfinite(out)):
+      ctx.fail("finite", key, case, dict(step=si))
+      return
+    for u in range(U):
+      model = parse_rats(replies[st["ev_first"] + u])
+      ctx.compare("kfl.eval", dict(small, step=si), out[:, u], model, float(np.max(M[:, u])), rtol=3e-5)
+    inr = np.all((Xf >= 0) & (Xf <= L - 1), axis=-1)
+    ok_pt = np.ones_like(inr) if cfg["clip"] else inr
+    tolp = 3e-5 * np.maximum(1.0, M)
+    evaluate_clauses(ctx, dict(key, step=si), case, cfg, monos_b, out, item["pts"], Xf, ok_pt, tolp,
+                     [(True, "keras_training")] * U, True)
 
 
 def run(ctx):
   rng = ctx.rng
   n = ctx.n(450, 6000)
+  nt = ctx.n(36, 400)
+  nfit = ctx.n(3, 12)
   lines, items = [], []
   for _ in range(n):
     case = gen_case(rng)
     ls, item = run_case(ctx, case)
+    item["first"] = len(lines)
+    lines += ls
+    items.append(item)
+  for i in range(nt + nfit):
+    case = gen_train(rng)
+    case["fit"] = i >= nt
+    ls, item = run_train_case(ctx, case)
     item["first"] = len(lines)
     lines += ls
     items.append(item)
@@ -343,7 +707,7 @@ def run(ctx):
     if any(r == "bad-op" for r in rep):
       ctx.disagree("kfl.driver", item["case"]["cfg"], None, rep, "bad-op")
       continue
-    check_case(ctx, item, rep)
+    (check_train_case if item.get("train") else check_case)(ctx, item, rep)
 
 
 def _unjson(case):
@@ -358,5 +722,11 @@ def _unjson(case):
 
 def replay(ctx, failure):
   case = _unjson(failure["case"])
+  if case.get("train"):
+    case["xs"] = [[[Fraction(v) for v in r] for r in row] for row in case["xs"]]
+    case["slope"] = Fraction(case["slope"])
+    lines, item = run_train_case(ctx, case)
+    check_train_case(ctx, item, run_driver(lines))
+    return
   lines, item = run_case(ctx, case)
   check_case(ctx, item, run_driver(lines))
